@@ -121,6 +121,12 @@ func (m *e2Machine) rawRequest(a pt.Action, errs *[]string, mu *sync.Mutex) {
 			}
 		}
 		resp, err := m.sys.Svc().PatchDocument(gocontext.Background(), &model.PatchMessage{Collection: c.coll, Key: a.T, Json: a.V})
+		if err == nil && resp == nil {
+			mu.Lock()
+			m.syncLost = append(m.syncLost, fmt.Sprintf("PatchDocument(%s, %s) returned neither a response nor an error", a.T, a.V))
+			mu.Unlock()
+			return
+		}
 		if err != nil {
 			note(fmt.Sprintf("patch: %v", err))
 			if existed {
@@ -526,6 +532,11 @@ func init() {
 				for _, tr := range x.trace {
 					if strings.HasPrefix(tr, "~env:") {
 						envEvent = true // (a lease that ran out may have had the push refused: the client retries later)
+					}
+				}
+				for _, l := range m.syncLost {
+					if strings.Contains(l, "neither a response nor an error") {
+						return viol("C16:request-answered-with-neither-response-nor-error:patch", "%s; schedule %v", l, x.trace)
 					}
 				}
 				if len(m.syncLost) > 0 && !envEvent {
